@@ -309,7 +309,7 @@ func runBidSeq(ctx *pbt.Ctx, c FlowSeq, wA, wB *world) (txA, txB *bt.Tx, _ error
 			if aba2 == nil || !c.Args {
 				aba2 = &ord.AcceptBid2DArgs{}
 			}
-			aba2.PSTx, aba2.SellerReceiveOrdinalScript, aba2.OrdinalUnlocker = pstx, script(f.SellerScript), su
+			aba2.PSTx, aba2.SellerReceiveOrdinalScript, aba2.OrdinalUnlocker, aba2.ExtraUTXOs = pstx, script(f.SellerScript), su, w.extraUTXOs()
 			tx, err = ord.AcceptBidToBuy1SatOrdinal2Dummies(bg, &ord.ValidateBid2DArgs{PreviousUTXOs: prev, BidAmount: f.Price, ExpectedFQ: fq}, aba2)
 		}
 		if err != nil || tx == nil {
